@@ -214,19 +214,24 @@ CLAIMED["C08"] = {
     "text": "partial by nature (goroutines): the forwarder's logic is an executable Coq state machine (per-circuit "
             "state: incoming HTLC, FwdFilter bit, circuit-map state, packet in flight, outgoing twin, mailbox response; "
             "per-channel ledger; events incl. the CommitCircuits Add/Drop/Fail table, pipelined settles, locked-in fails, "
-            "one-response arbitration, whole-node restart). Proved for every event order: an incoming HTLC is settled "
-            "only with a preimage received on its outgoing twin that hashes to the payment hash; it is failed back only "
-            "if the twin was never committed or is irrevocably removed, and a signed fail-back is final; at quiescence "
-            "hops settled together, nothing dangles (NumPending = NumOpen = 0), forwarder total = initial + fees of "
-            "succeeded forwards, sender debits = receiver credits + fees. Tie: trace recogniser (vm_compute, SHA-256) "
-            "over events observed on the real three-hop fixture (wire interceptors, HtlcNotifier, CircuitMap proxy) + "
-            "model-independent predicate on the real wire trace and quiescent end state of all four channel ends.",
-    "note": "Goroutine scheduling, onion processing, mailbox timers, transport and the commitment dance are exercised "
-            "by the harness only. Restart paths are proved on the model but no faults are injected on the real code "
-            "yet. -race off by default (fixture shares one mockObfuscator across links). Trusted: Coq kernel, harness, "
-            "python predicate.",
+            "one-response arbitration, whole-node restart ERestart, single-link restart ELinkRestart, abandoned forward "
+            "AAbandon). Proved for every event order: an incoming HTLC is settled only with a preimage received on its "
+            "outgoing twin that hashes to the payment hash; it is failed back only if the twin was never committed or is "
+            "irrevocably removed, and a signed fail-back is final; at quiescence hops settled together, nothing dangles "
+            "(NumPending = NumOpen = 0), forwarder total = initial + fees of succeeded forwards, sender debits = receiver "
+            "credits + fees. Tie: trace recogniser (vm_compute, SHA-256) over events observed on the real three-hop "
+            "fixture (wire interceptors, HtlcNotifier, CircuitMap proxy) under SEEDED FAULT INJECTION on the real code "
+            "(link stop/start with channel_reestablish, switch restart on the same DB, message loss followed by "
+            "reconnect, delays, channel down time) plus two directed scenarios in every run; model-independent predicate "
+            "on the real wire trace (preimage provenance, reconnect-tolerant fail-back lock-in, no late or duplicate "
+            "outgoing HTLC, stable forwarding-package references) and on the quiescent end state of all four channel "
+            "ends (balances, fees, circuits, invoices). Two genuine defects found by this check were repaired in /repo "
+            "(C08-F1 f141912 forwarding-package index on replay; C08-F2 c1f1bbb packets abandoned at link stop).",
+    "note": "Goroutine schedules and fault points are sampled, not enumerated; restarts are graceful stops, not "
+            "crashes inside a handler; onion processing, mailbox timers, transport and the commitment dance are exercised "
+            "by the harness only. The fixture keeps one database per channel end. Trusted: Coq kernel, harness, python predicate.",
     "technique": "Coq proof (per-circuit and ledger invariants over all event sequences) + trace recogniser on the real "
-                 "three-hop fixture + implementation-side quiescence predicate",
+                 "three-hop fixture under seeded fault injection + implementation-side wire-trace and quiescence predicates",
 }
 
 CLAIMED["C20"] = {
